@@ -82,6 +82,7 @@ type runStat struct {
 	HookReaders   int      `json:"steppedSubscriptionReaders"`
 	HookReads     int      `json:"steppedSubscriptionReads"`
 	Stalls        int      `json:"subscriptionStalls"`
+	Wakeups       int      `json:"importsBetweenReadAndWait"`
 	Plants        int      `json:"plantedIndexKeys"`
 	LateFirst     int      `json:"lookedUpBeforeLateInclusion"`
 	Subs          int      `json:"subscriptions"`
@@ -125,30 +126,31 @@ type reader struct {
 }
 
 type run struct {
-	rng     *rand.Rand
-	repo    *chain.Repository
-	bids    *trace.Interner
-	tids    *trace.Interner
-	pids    *trace.Interner
-	evs     []trace.Ev
-	blocks  []*blk
-	byID    map[thor.Bytes32]*blk
-	perH    map[uint32]int
-	txs     []*txr
-	readers []*reader
-	best    *blk
-	serial  uint64
-	nonce   uint64
-	st      runStat
-	maxSib  int
-	free    bool // a child of the best block may be stored without becoming best
-	ss      *subServer
-	wsubs   []*wsub
-	db      *muxdb.MuxDB
-	b0      *block.Block
-	dbOpt   muxdb.VerifOptions
-	subSeq  int
-	substep bool // subscription readers stepped Read by Read (needs the hook)
+	rng              *rand.Rand
+	repo             *chain.Repository
+	bids             *trace.Interner
+	tids             *trace.Interner
+	pids             *trace.Interner
+	evs              []trace.Ev
+	blocks           []*blk
+	byID             map[thor.Bytes32]*blk
+	perH             map[uint32]int
+	txs              []*txr
+	readers          []*reader
+	best             *blk
+	serial           uint64
+	nonce            uint64
+	st               runStat
+	maxSib           int
+	free             bool // a child of the best block may be stored without becoming best
+	ss               *subServer
+	wsubs            []*wsub
+	db               *muxdb.MuxDB
+	b0               *block.Block
+	dbOpt            muxdb.VerifOptions
+	subSeq           int
+	idleCh, resumeCh chan struct{}
+	substep          bool // subscription readers stepped Read by Read (needs the hook)
 }
 
 var devs = genesis.DevAccounts()
@@ -208,7 +210,8 @@ func onChain(head *blk, t *txr) (bool, bool) {
 
 func newRun(seed int64, mode string) *run {
 	r := &run{rng: rand.New(rand.NewSource(seed)), bids: trace.NewInterner("b"), tids: trace.NewInterner("t"),
-		pids: trace.NewInterner("p"), byID: map[thor.Bytes32]*blk{}, perH: map[uint32]int{}, maxSib: 4}
+		pids: trace.NewInterner("p"), byID: map[thor.Bytes32]*blk{}, perH: map[uint32]int{}, maxSib: 4,
+		idleCh: make(chan struct{}), resumeCh: make(chan struct{})}
 	r.st.Mode, r.st.Seed = mode, seed
 	// odd seeds run the tries behind a real node cache, so that a re-open also means cold caches
 	r.dbOpt = muxdb.VerifOptions{CacheSizeMB: int(seed%2) * 8}
@@ -936,6 +939,11 @@ func (r *run) tree(maxBlocks int, clean bool) {
 			r.startSub(k, r.notAboveBest())
 		}
 		r.quiet()
+		if havePipeHook && r.substep {
+			// last thing in the run: a best block lands between a subscription's empty Read and its wait; nothing follows
+			r.wakeup(subKinds[int(r.st.Seed%3+3)%3])
+			r.quiet()
+		}
 	}
 }
 
